@@ -58,6 +58,9 @@ func (c *fnCtx) call(in ssa.Instruction, cc *ssa.CallCommon, rt types.Type) *Val
 func (c *fnCtx) callStatic(in ssa.Instruction, callee *ssa.Function, closure *ssa.MakeClosure, cc *ssa.CallCommon, args []*Val, rt types.Type) *Val {
 	pos := in.Pos()
 	_ = pos
+	if callee == c.f && c.inlineOf == nil && !c.mute {
+		c.recursionObl(in, args)
+	}
 	if c.eng.isModule(callee) && callee.Blocks != nil {
 		// remembered for counterexample lifting: arguments, reach condition and heap at the call
 		r := c.root()
@@ -874,3 +877,38 @@ func (c *fnCtx) panicAllowed(in *ssa.Panic) bool {
 }
 
 var _ = token.NoPos
+
+// recursionObl: a direct recursive call must decrease the function's measure (contract clause "decreases e");
+// without a measure the recursion is not shown to be bounded.
+func (c *fnCtx) recursionObl(in ssa.Instruction, args []*Val) {
+	if !c.eng.wantClass("dec") {
+		return
+	}
+	if c.ct == nil || c.ct.Decreases == nil {
+		c.addObl("dec", in.Pos(), "false", "recursion: "+c.eng.srcText(in.Pos())+" (no decreases measure)")
+		return
+	}
+	cur := c.contractEnv(c.f, c.params, nil, c.entry, c.entry)
+	nxt := c.contractEnv(c.f, args, nil, c.st, c.st)
+	var m0, m1 string
+	func() {
+		defer func() {
+			if r := recover(); r != nil {
+				if ee, ok := r.(evalErr); ok {
+					c.eng.engineError(fmt.Errorf("%s decreases: %s", c.fnName(), ee.msg))
+					return
+				}
+				panic(r)
+			}
+		}()
+		saved := c.st
+		c.st = c.entry
+		m0 = cur.evalInt(c.ct.Decreases)
+		c.st = saved
+		m1 = nxt.evalInt(c.ct.Decreases)
+	}()
+	if m0 == "" || m1 == "" {
+		return
+	}
+	c.addObl("dec", in.Pos(), fmt.Sprintf("(and (>= %s 0) (< %s %s))", m0, m1, m0), "recursion: "+c.ct.Decreases.Src+" decreases at "+c.eng.srcText(in.Pos()))
+}
